@@ -198,7 +198,13 @@ def history_case(rng, name, mk, meta, ids):
     fitted = False
     for _ in range(n_ops):
         r = rng.random()
-        if r < 0.45 or not fitted:
+        if meta['kind'] in ('lf', 'pipe') and nu > 0 and r < 0.2:
+            # same number of columns, different state / input split
+            try:
+                do_fit(est, meta, D2, nu - 1); fitted = True; ops.append(f'fit(other, n_inputs={nu - 1})')
+            except Exception:  # noqa
+                ops.append('fit(other split) rejected')
+        elif r < 0.45 or not fitted:
             do_fit(est, meta, D2 if rng.random() < 0.7 else D1, nu); fitted = True; ops.append('fit(other)')
         elif r < 0.7:
             do_use(est, meta, D2); ops.append('use')
@@ -230,6 +236,64 @@ def history_case(rng, name, mk, meta, ids):
     d = diff(fitted_state(est), s1, 0)
     if d:
         return dict(what='transform / predict changed the fitted state', estimator=name, difference=d)
+    return None
+
+
+def interference_case(rng, name_a, mk_a, name_b, mk_b):
+    """operations on ANOTHER estimator object must not influence this one: A is fitted without episode
+    feature on single-column data, B (another object, possibly another class) is then fitted with an episode
+    feature, and A must still behave as an undisturbed twin does"""
+    Xa = rng.normal(size=(7, 1))
+    Xb = data(rng, nu=1)
+    try:
+        twin = mk_a().fit(Xa, n_inputs=0, episode_feature=False)
+        want = twin.transform(Xa)
+    except Exception:  # noqa
+        return 'skipped'          # this kind does not accept single-column data at all
+    a = mk_a().fit(Xa, n_inputs=0, episode_feature=False)
+    try:
+        b = mk_b().fit(Xb, n_inputs=1, episode_feature=True)
+        b.transform(Xb)
+    except Exception:  # noqa
+        return 'skipped'
+    try:
+        got = a.transform(Xa)
+        back = a.inverse_transform(got)
+        back_want = twin.inverse_transform(want)
+    except Exception as e:  # noqa
+        return dict(what='using an estimator after ANOTHER estimator object was fitted raises, while an undisturbed twin works: '
+                         f'{type(e).__name__}: {e}', estimator=name_a, other=name_b)
+    if not np.array_equal(got, want, equal_nan=True) or not np.array_equal(back, back_want, equal_nan=True):
+        return dict(what='fitting another estimator object changed the results of this one', estimator=name_a, other=name_b)
+    d = diff(fitted_state(a), fitted_state(twin), 0)
+    if d:
+        return dict(what='fitting another estimator object changed the fitted state of this one', estimator=name_a,
+                    other=name_b, difference=d)
+    return None
+
+
+def split_change_case(rng, name, mk, meta):
+    """refit of the same object on data with the same number of columns but another state / input split"""
+    D1 = data(rng, nu=1); D2 = data(rng, nu=1, length=11)
+    try:
+        fresh = mk(); do_fit(fresh, meta, D1, 0)
+        want = do_use(fresh, meta, D1)
+    except Exception:  # noqa
+        return 'skipped'
+    est = mk()
+    try:
+        do_fit(est, meta, D2, 1)
+        do_use(est, meta, D2)
+    except Exception:  # noqa
+        return 'skipped'
+    do_fit(est, meta, D1, 0)
+    d = diff(fitted_state(est), fitted_state(fresh), meta.get('tol', 0))
+    if d:
+        return dict(what='estimator refitted with another state / input split (same number of columns) differs from a fresh '
+                         'estimator fitted on the same data', estimator=name, difference=d)
+    got = do_use(est, meta, D1)
+    if want is not None and (np.shape(got) != np.shape(want) or not np.array_equal(got, want, equal_nan=True)):
+        return dict(what='estimator refitted with another state / input split gives other results than a fresh one', estimator=name)
     return None
 
 
@@ -383,6 +447,28 @@ def run(res, tier):
                 r = dict(what=f'thread test raised {type(e).__name__}: {e}', estimator=name)
             if r:
                 bad.append(r)
+    lfs = [(n, mk) for n, mk, meta in Z if meta['kind'] == 'lf']
+    n_int = 0
+    for i, (na, mka) in enumerate(lfs):
+        for j in ([(i + 1) % len(lfs), (i + 4) % len(lfs)] if tier == 'quick' else range(len(lfs))):
+            nb, mkb = lfs[j]
+            r = interference_case(rng, na, mka, nb, mkb)
+            if r == 'skipped':
+                continue
+            n_int += 1; ev += 1
+            if r:
+                bad.append(r)
+    dist['cross_instance_interference'] = n_int
+    n_sc = 0
+    for name, mk, meta in Z:
+        if meta['kind'] in ('lf', 'pipe'):
+            r = split_change_case(rng, name, mk, meta)
+            if r == 'skipped':
+                continue
+            n_sc += 1; ev += 1
+            if r:
+                bad.append(r)
+    dist['refit_with_other_split'] = n_sc
     n1, b1 = params_roundtrip(); ev += n1; bad += b1
     n2, b2 = shared_step_case(rng); ev += n2; bad += b2
     try:
@@ -407,7 +493,9 @@ def run(res, tier):
               'history of fits on other data / uses / set_params / clone, then fit(d): every trailing-underscore attribute '
               '(recursively, arrays bit-exact; LMI 1e-5) equals that of a fresh clone; joblib hash of get_params(deep) and '
               'input arrays unchanged. Threads: 4 threads x 3 repeated read-only uses vs sequential. Parameter round trips; '
-              'shared step objects; memoised helpers across different truncations; politely stopped earlier fit.' % len(Z)),
+              'shared step objects; memoised helpers across different truncations; politely stopped earlier fit. Refits with the same '
+              'number of columns but another state / input split. Cross-instance interference: A fitted without episode feature on '
+              'single-column data, another object B fitted with an episode feature, A must behave as an undisturbed twin.' % len(Z)),
         samples=[dict(estimator=n) for n, _, _ in Z[:3]], input_distribution=dist, known_finding_hits=kn)
     res.assumptions += ['frame facts come from a syntactic translator (idioms listed in tools/gen_effects.py) and are cross-checked by '
                         'the history runs; scheduling inside numpy/BLAS is not modelled; RandomState objects as seeds are '
